@@ -11,7 +11,7 @@ RULE = ("one case = one operation line. sniff <chunks> <tailErr> <matcher sets> 
         "sizes and drained; wq <ops>: Write under a chosen rate-limiter verdict / Flush sequences on the real Conn over a "
         "recording socket; wsr <frames> <reads> <drain>: websocket messages (binary, text, control, empty; inner reader "
         "chunked arbitrarily, EOF with or after the last data) read through the real transport; wsw: one message per "
-        "Write. non-trivial = distinct line where data is delivered, i.e. the answer is not bad-op / panic / a refusal")
+        "Write. wqc <a> <b> <limited>: a is queued, a flush stalls inside the socket's Write (slow peer), another goroutine writes b meanwhile: the peer receives a then b. non-trivial = distinct line where data is delivered, i.e. the answer is not bad-op / panic / a refusal")
 TRUSTED = ["kelindar/rate: the limiter's verdict is an arbitrary Boolean per Write in the theorems; the harness drives the real limiter into either verdict through its public Limit/Undo",
            "gorilla/websocket below NextReader / NextWriter (a fake frame source with gorilla's discard-the-rest semantics stands in)",
            "bytes.Buffer, io.ReadFull (transcribed), the patricia tree of matcher.go is modelled by its specification (starts with one of the strings) and tested differentially"]
@@ -205,6 +205,9 @@ def gen(rng, tier):
         ops.append(sniff(rng, tier))
     for i in range(budget(tier, 300, 10000)):
         ops.append(wq(rng, tier))
+    for i in range(budget(tier, 12, 300)):
+        # a write arriving while a flush is stalled inside the socket's Write (slow peer)
+        ops.append("wqc %s %s %d" % (hx(rbytes(rng, rng.choice([1, 8, 8, 40]))), hx(rbytes(rng, rng.choice([1, 8, 8, 40, 200]))), rng.randrange(2)))
     for i in range(budget(tier, 500, 15000)):
         ops.append(wsr(rng, tier))
     for i in range(budget(tier, 60, 1500)):
